@@ -180,8 +180,17 @@ func clientOpts(c caseSpec, name string) rig.ClientOpts {
 	case "ws":
 		o.Proto, o.Tunnel = "tcp", gortsplib.TunnelWebSocket
 	}
+	// every connection the client dials is tracked: after Close it must have been closed by the
+	// client (a descriptor census alone can be emptied by finalizers)
+	o.Mutate = func(cl *gortsplib.Client) {
+		t := &rig.DialTracker{}
+		cl.DialContext = t.DialContext
+		dialTrackers.Store(cl, t)
+	}
 	return o
 }
+
+var dialTrackers sync.Map // *gortsplib.Client -> *rig.DialTracker
 
 // runCase executes one cut x action case.
 func runCase(c caseSpec) {
@@ -428,7 +437,16 @@ func runCase(c caseSpec) {
 		cmu.Unlock()
 		for _, cl := range cs {
 			cl := cl
-			timed("Client.Close", c, func() { cl.Close() })
+			if !timed("Client.Close", c, func() { cl.Close() }) {
+				continue
+			}
+			if t, ok := dialTrackers.LoadAndDelete(cl); ok {
+				dt := t.(*rig.DialTracker)
+				run.Count("client-connections-dialed", int64(dt.Dialed()))
+				if left := dt.Unclosed(); len(left) > 0 {
+					run.Violation("leak/socket/client-connection-never-closed", fmt.Sprintf("Client.Close returned but the client never closed %d of the %d connection(s) it dialed", len(left), dt.Dialed()), c)
+				}
+			}
 		}
 		for _, p := range ps {
 			p.Close()
